@@ -659,6 +659,9 @@ func init() {
 
 	arrTmpls = []tmpl{
 		safe(S("has-bounds", 4, "length as $l | [has(0), has($l - 1), has($l), has(-1), has($l + 1)]", TArr)),
+		// fractional keys around the same boundaries (the engine truncates toward zero; seed C08-3)
+		safe(S("has-bounds-fractional", 3, "length as $l | [has(-0.5), has(-0.999), has(0.5), has(-1.5), has($l - 0.5), has($l - 1.5), has($l + 0.5), has(-0.0)]", TArr)),
+		safeDirect(S("index-bounds-fractional", 2, `if type == "array" then (length as $l | [.[0.5], .[-0.5], .[$l - 0.5], .[$l + 0.5], .[-$l - 0.5], .[-1.5], .[0.5:], .[:-0.5], .[$l - 1.5:], .[-0.5:]]) else "na" end`, TArr)),
 		safeDirect(S("index-bounds", 4, `if type == "array" then (length as $l | [.[0], .[$l - 1], .[$l], .[-$l], .[-$l - 1], .[-1]]) else "na" end`, TArr)),
 		safeDirect(S("slice-bounds", 4, "length as $l | [.[:$l], .[$l:], .[$l - 1:], .[1:$l], .[-$l:], .[:-$l], .[:-1], .[1:], .[-1:]]", TArr)),
 		safe(S("keys-vs-length", 2, "[keys == [range(length)], ([.[]] | length) == length, (to_entries | length) == length]", TArr)),
